@@ -26,12 +26,12 @@ func init() {
 var reKindAtom = regexp.MustCompile(`^Kind\(attr\.Value\) == (\d+)$`)
 
 func checkC18(c *Ctx) {
-	c.Rule("R18.1", "kind table: accessor ↔ kind ↔ constructor type; fallback; empty-Attr first", 14)
-	c.Rule("R18.2", "level map: descending thresholds with non-increasing zap levels; shared by Enabled and Handle", 3)
-	c.Rule("R18.3", "slog.Handler contract clauses: empty group name, empty group attribute, inline group", 3)
-	c.Rule("R18.4", "Handle and WithAttrs agree on the emission of pending groups", 5)
-	c.Rule("R18.5", "WithAttrs/WithGroup are pure derivations", 4)
-	c.Rule("R18.6", "a record is handled iff Core.Check accepts the mapped level", 3)
+	c.Rule("R18.1", "kind table: accessor ↔ kind ↔ constructor type; fallback; empty-Attr first", 9)
+	c.Rule("R18.2", "level map: descending thresholds with non-increasing zap levels; shared by Enabled and Handle", 2)
+	c.Rule("R18.3", "slog.Handler contract clauses: empty group name, empty group attribute, inline group", 2)
+	c.Rule("R18.4", "Handle and WithAttrs agree on the emission of pending groups", 4)
+	c.Rule("R18.5", "WithAttrs/WithGroup are pure derivations", 3)
+	c.Rule("R18.6", "a record is handled iff Core.Check accepts the mapped level", 2)
 
 	conv := c.Func(SlogPath, "convertAttrToField")
 	slog := c.Pkg("log/slog")
